@@ -38,6 +38,9 @@ pub enum Site {
     Respond = 8,
     Stall = 9,
     Finish = 10,
+    /// the token holder made no progress for a while: it is blocked on a real OS primitive the
+    /// simulator does not know (e.g. a mutex added to the code under test); another thread runs
+    OsBlocked = 11,
 }
 
 #[derive(Clone, Debug, Serialize, Deserialize, PartialEq)]
@@ -57,6 +60,8 @@ enum ThState {
     Runnable,
     Sleeping(i64),
     Done,
+    /// blocked (or running) outside the scheduler's control; becomes Runnable at its next point
+    OsBlocked,
 }
 
 struct St {
@@ -86,6 +91,8 @@ struct St {
     busy_sleeps: u64,
     busy_slept_us: i64,
     overrun: bool,
+    last_progress: std::time::Instant,
+    os_blocked: u64,
 }
 
 const COORD: usize = usize::MAX;
@@ -122,6 +129,7 @@ pub struct SchedOutcome {
     pub stalls_fired: u32,
     pub overrun: bool,
     pub hang: bool,
+    pub os_blocked: u64,
 }
 
 fn choose(st: &mut St, me: Option<usize>) -> Option<usize> {
@@ -224,7 +232,11 @@ fn hand_over<'a>(
     if next == me {
         return g;
     }
-    g.as_mut().unwrap().cur = next;
+    {
+        let st = g.as_mut().unwrap();
+        st.cur = next;
+        st.last_progress = std::time::Instant::now();
+    }
     CV.notify_all();
     loop {
         g = CV.wait(g).unwrap();
@@ -236,6 +248,25 @@ fn hand_over<'a>(
     }
 }
 
+/// A thread that was declared OS-blocked (and has been running without the token since the
+/// primitive it waited on was released) stops here and waits for the token again.
+fn reenter<'a>(mut g: std::sync::MutexGuard<'a, Option<St>>, me: usize) -> std::sync::MutexGuard<'a, Option<St>> {
+    let was_blocked = matches!(g.as_ref(), Some(st) if st.active && st.th[me] == ThState::OsBlocked);
+    if !was_blocked {
+        return g;
+    }
+    g.as_mut().unwrap().th[me] = ThState::Runnable;
+    CV.notify_all();
+    loop {
+        match g.as_ref() {
+            Some(st) if st.cur == me => return g,
+            Some(_) => {}
+            None => return g,
+        }
+        g = CV.wait(g).unwrap();
+    }
+}
+
 /// A scheduling point. No-op outside a scheduled run.
 pub fn point(site: Site) {
     let me = match tid() {
@@ -243,10 +274,12 @@ pub fn point(site: Site) {
         None => return,
     };
     let mut g = SCHED.lock().unwrap();
+    g = reenter(g, me);
     let st = match g.as_mut() {
         Some(st) if st.active => st,
         _ => return,
     };
+    st.last_progress = std::time::Instant::now();
     st.steps += 1;
     st.seq += 1;
     st.trace.push((me as u8, site as u8));
@@ -279,6 +312,7 @@ pub fn sleep_us(d: i64, site: Site) {
         }
     };
     let mut g = SCHED.lock().unwrap();
+    g = reenter(g, me);
     let st = match g.as_mut() {
         Some(st) if st.active => st,
         _ => {
@@ -286,6 +320,7 @@ pub fn sleep_us(d: i64, site: Site) {
             return;
         }
     };
+    st.last_progress = std::time::Instant::now();
     st.steps += 1;
     st.seq += 1;
     st.trace.push((me as u8, site as u8));
@@ -358,6 +393,8 @@ where
             busy_sleeps: 0,
             busy_slept_us: 0,
             overrun: false,
+            last_progress: std::time::Instant::now(),
+            os_blocked: 0,
         });
     }
     let mut hang = false;
@@ -382,11 +419,15 @@ where
                         // finish: hand the token to someone else
                         let mut g = SCHED.lock().unwrap();
                         if let Some(st) = g.as_mut() {
+                            let held = st.cur == i;
                             st.th[i] = ThState::Done;
                             st.trace.push((i as u8, Site::Finish as u8));
-                            match choose(st, None) {
-                                Some(next) => st.cur = next,
-                                None => st.cur = COORD,
+                            st.last_progress = std::time::Instant::now();
+                            if held {
+                                match choose(st, None) {
+                                    Some(next) => st.cur = next,
+                                    None => st.cur = COORD,
+                                }
                             }
                         }
                         CV.notify_all();
@@ -407,18 +448,37 @@ where
             st.cur = first;
             CV.notify_all();
             // wait until every thread is done (token returns to COORD), with a real-time watchdog
-            let deadline = std::time::Instant::now() + std::time::Duration::from_secs(60);
+            let deadline = std::time::Instant::now() + std::time::Duration::from_secs(600);
             loop {
-                let st = g.as_ref().unwrap();
-                if st.cur == COORD && st.th.iter().all(|t| *t == ThState::Done) {
-                    break;
+                {
+                    let st = g.as_mut().unwrap();
+                    if st.th.iter().all(|t| *t == ThState::Done) {
+                        break;
+                    }
+                    let idle = st.last_progress.elapsed();
+                    if st.cur != COORD && st.th[st.cur] != ThState::Done && idle > std::time::Duration::from_millis(1500) {
+                        // the token holder is stuck outside the scheduler: let someone else run
+                        let t = st.cur;
+                        st.th[t] = ThState::OsBlocked;
+                        st.os_blocked += 1;
+                        st.trace.push((t as u8, Site::OsBlocked as u8));
+                        st.cur = choose(st, None).unwrap_or(COORD);
+                        st.last_progress = std::time::Instant::now();
+                        CV.notify_all();
+                    } else if st.cur == COORD || st.th[st.cur] == ThState::Done {
+                        // nobody holds the token: give it to whoever is (or has become) runnable
+                        if let Some(next) = choose(st, None) {
+                            st.cur = next;
+                            st.last_progress = std::time::Instant::now();
+                            CV.notify_all();
+                        }
+                    }
                 }
-                let now = std::time::Instant::now();
-                if now >= deadline {
+                if g.as_ref().unwrap().last_progress.elapsed() > std::time::Duration::from_secs(60) || std::time::Instant::now() >= deadline {
                     hang = true;
                     break;
                 }
-                let (ng, _) = CV.wait_timeout(g, std::time::Duration::from_millis(200)).unwrap();
+                let (ng, _) = CV.wait_timeout(g, std::time::Duration::from_millis(50)).unwrap();
                 g = ng;
             }
         }
@@ -442,5 +502,6 @@ where
         stalls_fired: st.stalls_fired,
         overrun: st.overrun,
         hang,
+        os_blocked: st.os_blocked,
     }
 }
